@@ -277,11 +277,6 @@ Proof.
   apply (walk_excl_exact _ (sel_exclude_form ipats pats) (list_size top)); [lia | reflexivity].
 Qed.
 
-Theorem final_state_spec_excl ipats pats delete top extras :
-  final_state (sel_exclude ipats pats) delete top extras =
-  spec_final_w (spec_written_excl (sel_exclude ipats pats) top) (sel_exclude ipats pats) delete top extras.
-Proof. unfold final_state, spec_final_w. rewrite exclude_written_exact. reflexivity. Qed.
-
 (* ---------- --delete ---------- *)
 Theorem delete_exact sel leave e : deleted sel leave e = true <->
   exists names, In (fst e, names) leave /\ ~ In (snd e) names /\ fst (sel (desc (fst e) (snd e)) false) = true.
@@ -296,11 +291,116 @@ Proof.
     apply bytes_eqb_spec in Y2. subst y. exact Y1.
 Qed.
 
+(* ---------- which directories leaveDir runs for ---------- *)
+Lemma leave_spec_node_eq sel loc name isdir kids :
+  leave_spec_node sel loc (Node name isdir kids) =
+  if isdir then leave_spec_list sel (desc loc name) kids
+                ++ (if orb (fst (sel (desc loc name) true)) (sel_any sel (paths_list (desc loc name) kids))
+                    then [(desc loc name, map t_name kids)] else [])
+  else [].
+Proof.
+  cbn [leave_spec_node]. destruct isdir; [|reflexivity]. f_equal.
+  induction kids as [|k r IH]; [reflexivity|]. cbn [leave_spec_list]. rewrite <- IH. reflexivity.
+Qed.
+
+Lemma leave_excl_node_eq sel loc name isdir kids :
+  leave_excl_node sel loc (Node name isdir kids) =
+  if andb isdir (fst (sel (desc loc name) true))
+  then leave_excl_list sel (desc loc name) kids ++ [(desc loc name, map t_name kids)] else [].
+Proof.
+  cbn [leave_excl_node]. destruct (andb isdir (fst (sel (desc loc name) true))); [|reflexivity]. f_equal.
+  induction kids as [|k r IH]; [reflexivity|]. cbn [leave_excl_list]. rewrite <- IH. reflexivity.
+Qed.
+
+Lemma sel_any_app sel a b : sel_any sel (a ++ b) = orb (sel_any sel a) (sel_any sel b).
+Proof. unfold sel_any. apply existsb_app. Qed.
+
+(* nothing below a directory that reports childMayBeSelected = false is selected *)
+Lemma none_below sel p ks : sel_sound sel -> p <> [] -> snd (sel p true) = false -> sel_any sel (paths_list p ks) = false.
+Proof.
+  intros SS NP C. apply not_true_is_false. intro H. unfold sel_any in H. apply existsb_exists in H as [[q d] [I F]].
+  cbn [fst snd] in F. destruct (paths_below _ _ _ _ _ (le_n _) I) as [t ->]. rewrite (SS p t d NP F) in C. discriminate.
+Qed.
+
+Lemma has_exact sel : sel_sound sel -> forall n kids loc, list_size kids <= n ->
+  w_has (walk_list sel loc kids) = sel_any sel (paths_list loc kids).
+Proof.
+  intro SS. induction n as [|n IH]; intros kids loc L.
+  - destruct kids as [|[nm dd ks] r]; [reflexivity|]. rewrite list_size_cons in L. lia.
+  - destruct kids as [|[nm dd ks] r]; [reflexivity|]. rewrite list_size_cons in L.
+    cbn [walk_list paths_list w_has]. rewrite walk_node_eq, paths_node_eq, sel_any_app, (IH r loc ltac:(lia)). cbv zeta. f_equal.
+    set (p := desc loc nm). destruct dd; cbn [w_has].
+    + unfold sel_any at 1. cbn [existsb fst snd]. fold (sel_any sel (paths_list p ks)). f_equal.
+      unfold sub_walk. destruct (snd (sel p true)) eqn:C; [apply IH; lia|].
+      cbn [w_has]. symmetry. apply none_below; [exact SS | apply desc_nonempty | exact C].
+    + unfold sel_any. cbn [existsb fst snd]. rewrite orb_false_r. reflexivity.
+Qed.
+
+Lemma leave_spec_nil sel : forall n ks p, list_size ks <= n -> sel_any sel (paths_list p ks) = false -> leave_spec_list sel p ks = [].
+Proof.
+  induction n as [|n IH]; intros ks p L H.
+  - destruct ks as [|[nm dd k2] r]; [reflexivity|]. rewrite list_size_cons in L. lia.
+  - destruct ks as [|[nm dd k2] r]; [reflexivity|]. rewrite list_size_cons in L.
+    cbn [paths_list leave_spec_list] in *. rewrite paths_node_eq, sel_any_app in H. apply orb_false_iff in H as [H1 H2].
+    rewrite leave_spec_node_eq, (IH r p ltac:(lia) H2), app_nil_r. destruct dd; [|reflexivity].
+    unfold sel_any in H1. cbn [existsb fst snd] in H1. apply orb_false_iff in H1 as [H1 H3]. fold (sel_any sel (paths_list (desc p nm) k2)) in H3.
+    rewrite H1, H3, (IH k2 (desc p nm) ltac:(lia) H3). reflexivity.
+Qed.
+
+(* prune-safe filters: leaveDir runs exactly for the directories that are selected or hold a selected entry *)
+Theorem leave_exact sel : sel_sound sel -> forall n kids loc, list_size kids <= n ->
+  w_leave (walk_list sel loc kids) = leave_spec_list sel loc kids.
+Proof.
+  intro SS. induction n as [|n IH]; intros kids loc L.
+  - destruct kids as [|[nm dd ks] r]; [reflexivity|]. rewrite list_size_cons in L. lia.
+  - destruct kids as [|[nm dd ks] r]; [reflexivity|]. rewrite list_size_cons in L.
+    cbn [walk_list leave_spec_list w_leave]. rewrite walk_node_eq, leave_spec_node_eq, (IH r loc ltac:(lia)). cbv zeta. f_equal.
+    set (p := desc loc nm). destruct dd; cbn [w_leave]; [|reflexivity].
+    unfold sub_walk. destruct (snd (sel p true)) eqn:C.
+    + rewrite (IH ks p ltac:(lia)), (has_exact sel SS _ ks p (le_n _)). reflexivity.
+    + cbn [w_leave w_has app]. pose proof (none_below sel p ks SS (desc_nonempty _ _) C) as NB.
+      rewrite NB, (leave_spec_nil sel _ ks p (le_n _) NB). reflexivity.
+Qed.
+
+Theorem leave_root_exact sel top : sel_sound sel -> w_leave (walk_root sel top) = leave_spec_root sel top.
+Proof.
+  intro SS. unfold walk_root, leave_spec_root. cbn [w_leave].
+  rewrite (leave_exact sel SS _ top [] (le_n _)), (has_exact sel SS _ top [] (le_n _)). reflexivity.
+Qed.
+
+(* exclude filters: leaveDir runs exactly for the selected directories below selected directories *)
+Lemma has_excl sel : excl_form sel -> forall kids loc, w_has (walk_list sel loc kids) = top_any sel loc kids.
+Proof.
+  intro EF. induction kids as [|[nm dd ks] r IH]; intro loc; [reflexivity|].
+  cbn [walk_list w_has]. unfold top_any. cbn [existsb t_name t_isdir]. fold (top_any sel loc r). rewrite <- IH, walk_node_eq. cbv zeta. f_equal.
+  destruct dd; cbn [w_has]; [|reflexivity].
+  rewrite (EF (desc loc nm) true), andb_true_r. unfold sub_walk. destruct (fst (sel (desc loc nm) true)); reflexivity.
+Qed.
+
+Theorem leave_excl_exact sel : excl_form sel -> forall n kids loc, list_size kids <= n ->
+  w_leave (walk_list sel loc kids) = leave_excl_list sel loc kids.
+Proof.
+  intro EF. induction n as [|n IH]; intros kids loc L.
+  - destruct kids as [|[nm dd ks] r]; [reflexivity|]. rewrite list_size_cons in L. lia.
+  - destruct kids as [|[nm dd ks] r]; [reflexivity|]. rewrite list_size_cons in L.
+    cbn [walk_list leave_excl_list w_leave]. rewrite walk_node_eq, leave_excl_node_eq, (IH r loc ltac:(lia)). cbv zeta. f_equal.
+    set (p := desc loc nm). destruct dd; cbn [w_leave andb]; [|reflexivity].
+    rewrite (EF p true), andb_true_r. unfold sub_walk. destruct (fst (sel p true)).
+    + cbn [orb]. rewrite (IH ks p ltac:(lia)). reflexivity.
+    + reflexivity.
+Qed.
+
+Theorem leave_excl_root_exact sel top : excl_form sel -> w_leave (walk_root sel top) = leave_excl_root sel top.
+Proof.
+  intro EF. unfold walk_root, leave_excl_root. cbn [w_leave].
+  rewrite (leave_excl_exact sel EF _ top [] (le_n _)), (has_excl sel EF top []). reflexivity.
+Qed.
+
 (* ---------- the whole target ---------- *)
 Theorem final_state_spec sel delete top extras x : sel_sound sel ->
   (In x (final_state sel delete top extras) <-> In x (spec_final sel delete top extras)).
 Proof.
-  intro SS. unfold final_state, spec_final, spec_final_w.
+  intro SS. unfold final_state, spec_final, spec_final_w. rewrite (leave_root_exact sel top SS).
   assert (M : forall y, In y (map fst (w_written (walk_root sel top))) <-> In y (map fst (spec_written sel top))).
   { intro y. rewrite !in_map_iff. split; intros [[q d] [E I]]; exists (q, d); (split; [exact E|]); apply (walk_written_exact sel top q d SS); exact I. }
   rewrite !in_app_iff, !in_flat_map. rewrite M.
@@ -308,6 +408,13 @@ Proof.
               (exists z, In z (map fst (spec_written sel top)) /\ In x (ancestors z))).
   { split; intros [z [I A]]; exists z; (split; [apply M; exact I | exact A]). }
   rewrite F. tauto.
+Qed.
+
+Theorem final_state_spec_excl ipats pats delete top extras :
+  final_state (sel_exclude ipats pats) delete top extras = spec_final_excl (sel_exclude ipats pats) delete top extras.
+Proof.
+  unfold final_state, spec_final_excl, spec_final_w.
+  rewrite exclude_written_exact, (leave_excl_root_exact _ top (sel_exclude_form ipats pats)). reflexivity.
 Qed.
 
 From Coq Require Import String. Open Scope string_scope.
